@@ -184,3 +184,61 @@ func ZZ_C11_Deposit() {
 	}
 	vrt.Assert("c11.deposit.nobody-else", env.Bank.Balance(zzModuleAddr, "hub").IsZero() && env.Bank.Balance(types.TempAddress, "hub").IsZero())
 }
+
+// ZZ_C11_Relay: a deposit addressed to another external chain (TransferToChainEvent, receiver chain != hub) is
+// minted with the sending chain's decimals and queued on the receiving chain with the receiving chain's decimals:
+// fee and commission recorded exactly, the scheduled amount is what was locked less fee and commission, and no
+// voucher is left anywhere on the hub. The two chains' decimals are chosen independently.
+func ZZ_C11_Relay() {
+	env := ZZNewEnv(10, 1000)
+	k, ctx := env.K, env.Ctx
+	k.setParams(ctx, zzDefaultParams())
+	chain := types.ChainID("ethereum")
+	dec := zzDecimalsChoice("decimals")
+	odec := []uint64{6, 18}[vrt.Choose("receiver.decimals", 2)]
+	if vrt.Thorough() {
+		odec = []uint64{0, 6, 8, 18, 24}[vrt.Choose("receiver.decimals.t", 5)]
+	}
+	rate := sdk.NewDecWithPrec(1, 2)
+	k.SetTokenInfos(ctx, &types.TokenInfos{TokenInfos: []*types.TokenInfo{
+		{Id: 1, Denom: "hub", ChainId: "ethereum", ExternalTokenId: zzEthTokA, ExternalDecimals: dec, Commission: rate},
+		{Id: 2, Denom: "hub", ChainId: "minter", ExternalTokenId: "0", ExternalDecimals: odec, Commission: rate},
+	}})
+	amount := vrt.IntRange("amount", big.NewInt(0), zzPow255)
+	fee := vrt.IntRange("fee", big.NewInt(0), zzPow255)
+	sup0 := vrt.IntRange("supply", big.NewInt(0), zzPow255)
+	env.Bank.SetSupply("hub", sdk.NewIntFromBigInt(sup0))
+	last0 := vrt.Uint64Below("lastID", 1<<56)
+	zzSetLastID(env, "minter", last0)
+	const sender = "0x00000000000000000000000000000000000000aa"
+	const receiver = "0x00000000000000000000000000000000000000bb"
+	ev := &types.TransferToChainEvent{EventNonce: 1, ExternalCoinId: zzEthTokA, Amount: sdk.NewIntFromBigInt(amount), Fee: sdk.NewIntFromBigInt(fee),
+		Sender: sender, ReceiverChainId: "minter", ExternalReceiver: receiver, ExternalHeight: 5, TxHash: "0xdead"}
+	vrt.Assume(ev.Validate(chain) == nil)
+	var err error
+	if vrt.Panics(func() { err = k.ExternalEventProcessor.Handle(ctx, chain, ev) }) {
+		return // C05
+	}
+	if err != nil {
+		vrt.Reach("c11.relay.failed")
+		return // executed in a cache context by processExternalEvent: dropped on error
+	}
+	vrt.Reach("c11.relay.ok")
+	A := zzConv(dec, 18, amount)
+	F := zzConv(dec, 18, fee)
+	C := zzMulDiv(rate.BigInt(), A, zzE18) // no holders registered: the full rate
+	vrt.Assert("c11.relay.nothing-left-on-hub", env.Bank.SupplyOf("hub").BigInt().Cmp(sup0) == 0 &&
+		env.Bank.Balance(zzModuleAddr, "hub").IsZero() && env.Bank.Balance(types.TempAddress, "hub").IsZero())
+	pool := zzPoolOf(k, ctx, "minter")
+	vrt.Assert("c11.relay.one-entry", len(pool) == 1 && len(zzPoolOf(k, ctx, chain)) == 0)
+	if len(pool) != 1 {
+		return
+	}
+	e := pool[0]
+	vrt.Assert("c11.relay.fee-recorded", e.Fee.Amount.BigInt().Cmp(zzConv(18, odec, F)) == 0)
+	vrt.Assert("c11.relay.commission-recorded", e.ValCommission.Amount.BigInt().Cmp(zzConv(18, odec, C)) == 0)
+	rest := new(big.Int).Sub(new(big.Int).Sub(A, C), F)
+	vrt.Assert("c11.relay.amount-exact", e.Token.Amount.BigInt().Cmp(zzConv(18, odec, rest)) == 0)
+	vrt.Assert("c11.relay.route", e.Id == last0+1 && e.ExternalRecipient == receiver && e.RefundChainId == "ethereum" && e.RefundAddress == sender &&
+		e.Token.ExternalTokenId == "0" && e.Fee.ExternalTokenId == "0" && e.ValCommission.ExternalTokenId == "0")
+}
